@@ -53,6 +53,9 @@ pub struct LifeModel {
     /// start from an exchange that is complete on the wire but not yet consumed: GET answered with head + 4 octets +
     /// END_STREAM, response future resolved, RecvStream and SendStream still held, nothing read or released
     pub mid: bool,
+    /// the peer advertises a stream window of 2: the 3 octets of a request body do not fit, END_STREAM is queued behind
+    /// flow-control-blocked DATA (a stream can then be closed both ways while it still holds frames)
+    pub blocked: bool,
 }
 
 impl LifeModel {
@@ -60,6 +63,9 @@ impl LifeModel {
         Self::new_variant(name, quick, expire_now, false)
     }
     pub fn new_variant(name: &'static str, quick: bool, expire_now: bool, mid: bool) -> LifeModel {
+        Self::new_variant2(name, quick, expire_now, mid, false)
+    }
+    pub fn new_variant2(name: &'static str, quick: bool, expire_now: bool, mid: bool, blocked: bool) -> LifeModel {
         let n = if quick { 2 } else { 3 };
         let mut ev = vec![Ev::Request(true), Ev::Request(false)];
         for k in 0..n {
@@ -80,7 +86,7 @@ impl LifeModel {
         if expire_now {
             ev.push(Ev::TimePasses);
         }
-        LifeModel { events: ev, name, expire_now, max_reqs: n, mid }
+        LifeModel { events: ev, name, expire_now, max_reqs: n, mid, blocked }
     }
 }
 
@@ -97,6 +103,10 @@ fn peer_frames(t: &T2, sid: u32) -> Vec<&crate::monitor::FrameRec> {
 
 fn peer_closed(t: &T2, sid: u32) -> bool {
     peer_frames(t, sid).iter().any(|f| matches!(&f.parsed, Ok(Parsed::Headers { eos: true, .. }) | Ok(Parsed::Data { eos: true, .. }) | Ok(Parsed::RstStream { .. })))
+}
+
+fn peer_rst(t: &T2, sid: u32) -> bool {
+    peer_frames(t, sid).iter().any(|f| matches!(&f.parsed, Ok(Parsed::RstStream { .. })))
 }
 
 fn peer_responded(t: &T2, sid: u32) -> bool {
@@ -161,7 +171,8 @@ impl Model for LifeModel {
         // a stream window of 6: releasing the 4 octets of a response body crosses the WINDOW_UPDATE threshold, so that closed
         // streams pass through the pending-window-update queue as well
         cb.initial_window_size(6);
-        T2Cfg { role: Side::Client, peer_settings: vec![], client: Some(cb), server: None, policy: IoPolicy::default() }
+        let peer_settings = if self.blocked { vec![(wf::setting::INITIAL_WINDOW_SIZE, 2)] } else { vec![] };
+        T2Cfg { role: Side::Client, peer_settings, client: Some(cb), server: None, policy: IoPolicy::default() }
     }
     fn init(&self, t: &mut T2) -> World {
         let sr = t.send_request.take().unwrap();
@@ -195,7 +206,8 @@ impl Model for LifeModel {
             Ev::SendEos(k) => r(*k).map(|x| x.ss.is_some() && !x.sent_eos && !x.reset).unwrap_or(false),
             Ev::PeerRespond(k, _) => r(*k).map(|x| on_wire(t, x.sid) && !peer_responded(t, x.sid) && !peer_closed(t, x.sid) && t.rst_sent(x.sid).is_empty()).unwrap_or(false),
             Ev::PeerDataEos(k) => r(*k).map(|x| peer_responded(t, x.sid) && !peer_closed(t, x.sid) && t.rst_sent(x.sid).is_empty()).unwrap_or(false),
-            Ev::PeerRst(k) => r(*k).map(|x| on_wire(t, x.sid) && !peer_closed(t, x.sid)).unwrap_or(false),
+            // also after the peer's END_STREAM (RFC 9113 8.1: a complete response followed by RST_STREAM), never twice
+            Ev::PeerRst(k) => r(*k).map(|x| on_wire(t, x.sid) && !peer_rst(t, x.sid)).unwrap_or(false),
             Ev::PollResponse(k) | Ev::DropRf(k) => r(*k).map(|x| x.rf.is_some()).unwrap_or(false),
             Ev::ReadAll(k) | Ev::DropBody(k) => r(*k).map(|x| x.body.is_some()).unwrap_or(false),
             Ev::ClientReset(k) => r(*k).map(|x| x.ss.is_some() && !x.reset).unwrap_or(false),
@@ -318,6 +330,10 @@ impl Model for LifeModel {
                     x.sent_eos = true;
                 }
             }
+            if self.blocked && !peer_rst(t, x.sid) && t.rst_sent(x.sid).is_empty() {
+                // the peer lets the rest of the request body through
+                t.peer_send(&wf::window_update(x.sid, 1000));
+            }
         }
         t.drive(300);
         // 2. the application lets go of every stream handle
@@ -433,10 +449,15 @@ pub struct ServerLife {
     pub events: Vec<SEv>,
     pub name: &'static str,
     pub expire_now: bool,
+    /// the peer advertises a stream window of 2 (the 4 octets that end a response do not fit)
+    pub blocked: bool,
 }
 
 impl ServerLife {
     pub fn new(name: &'static str, quick: bool, expire_now: bool) -> ServerLife {
+        Self::new_variant(name, quick, expire_now, false)
+    }
+    pub fn new_variant(name: &'static str, quick: bool, expire_now: bool, blocked: bool) -> ServerLife {
         let mut ev = vec![SEv::PeerOpen(true), SEv::PeerOpen(false)];
         for k in 0..2 {
             if !quick {
@@ -460,7 +481,7 @@ impl ServerLife {
         if expire_now {
             ev.push(SEv::TimePasses);
         }
-        ServerLife { events: ev, name, expire_now }
+        ServerLife { events: ev, name, expire_now, blocked }
     }
 }
 
@@ -474,7 +495,8 @@ impl Model for ServerLife {
         sb.reset_stream_duration(if self.expire_now { std::time::Duration::from_secs(0) } else { std::time::Duration::from_secs(3600) });
         sb.max_concurrent_reset_streams(2);
         sb.initial_window_size(6);
-        T2Cfg { role: Side::Server, peer_settings: vec![], client: None, server: Some(sb), policy: IoPolicy::default() }
+        let peer_settings = if self.blocked { vec![(wf::setting::INITIAL_WINDOW_SIZE, 2)] } else { vec![] };
+        T2Cfg { role: Side::Server, peer_settings, client: None, server: Some(sb), policy: IoPolicy::default() }
     }
     fn init(&self, _t: &mut T2) -> SWorld {
         SWorld { opened: vec![], pushed: vec![], resets: 0, pushes: 0 }
@@ -494,7 +516,9 @@ impl Model for ServerLife {
         match &self.events[e] {
             SEv::PeerOpen(_) => w.opened.len() < 2,
             SEv::PeerData(k) => peer_open(*k) && peer_frames(t, w.opened[*k]).iter().filter(|f| f.raw.ty == wf::ty::DATA).count() < 1,
-            SEv::PeerEnd(k) | SEv::PeerRst(k) => peer_open(*k),
+            SEv::PeerEnd(k) => peer_open(*k),
+            // also after the peer's END_STREAM and across a reset of ours (the frames cross), never twice
+            SEv::PeerRst(k) => w.opened.get(*k).map(|&sid| !peer_rst(t, sid)).unwrap_or(false),
             SEv::Respond(k, _) | SEv::ServerReset(k) | SEv::DropRespond(k) | SEv::Push(k) => acc(*k).map(|a| a.respond.is_some()).unwrap_or(false) && (!matches!(self.events[e], SEv::Push(_)) || w.pushes < 1),
             SEv::SendEos(k) | SEv::DropSend(k) => acc(*k).map(|a| a.send.is_some()).unwrap_or(false),
             SEv::ReadAll(k) | SEv::DropBody(k) => acc(*k).map(|a| a.body.is_some()).unwrap_or(false),
@@ -637,6 +661,13 @@ impl Model for ServerLife {
             let _ = guarded(&mut panics, "pushed send_data", || ss.send_data(Bytes::new(), true));
             safe_drop(&mut panics, "SendStream", Some(ss));
         }
+        if self.blocked {
+            for &sid in &w.opened {
+                if !peer_rst(t, sid) && t.rst_sent(sid).is_empty() {
+                    t.peer_send(&wf::window_update(sid, 1000));
+                }
+            }
+        }
         t.drive(300);
         // 2. the application lets go of everything
         for a in t.accepted.iter_mut() {
@@ -692,12 +723,16 @@ pub fn run(ctx: &Ctx) -> Outcome {
     let m3 = LifeModel::new_variant(if quick { "life-mid-q" } else { "life-mid-t" }, quick, false, true);
     let s1 = ServerLife::new(if quick { "server-life-remember-q" } else { "server-life-remember-t" }, quick, false);
     let s2 = ServerLife::new(if quick { "server-life-expire-q" } else { "server-life-expire-t" }, quick, true);
-    let r1 = search(ctx, &m1, "C19", maxd, budget * 0.25, true);
-    let r2 = search(ctx, &m2, "C19", maxd, budget * 0.45, true);
-    let r3 = search(ctx, &m3, "C19", maxd, budget * 0.6, true);
-    let r4 = search(ctx, &s1, "C19", maxd, budget * 0.8, true);
-    let r5 = search(ctx, &s2, "C19", maxd, budget * 0.97, true);
-    fill_outcome(&mut out, &[(m1.name, &r1), (m2.name, &r2), (m3.name, &r3), (s1.name, &r4), (s2.name, &r5)]);
+    let m4 = LifeModel::new_variant2(if quick { "life-blocked-q" } else { "life-blocked-t" }, quick, false, false, true);
+    let s3 = ServerLife::new_variant(if quick { "server-life-blocked-q" } else { "server-life-blocked-t" }, quick, false, true);
+    let r1 = search(ctx, &m1, "C19", maxd, budget * 0.2, true);
+    let r2 = search(ctx, &m2, "C19", maxd, budget * 0.4, true);
+    let r3 = search(ctx, &m3, "C19", maxd, budget * 0.55, true);
+    let r4 = search(ctx, &s1, "C19", maxd, budget * 0.75, true);
+    let r5 = search(ctx, &s2, "C19", maxd, budget * 0.95, true);
+    let r6 = search(ctx, &m4, "C19", maxd, budget * 1.15, true);
+    let r7 = search(ctx, &s3, "C19", maxd, budget * 1.35, true);
+    fill_outcome(&mut out, &[(m1.name, &r1), (m2.name, &r2), (m3.name, &r3), (s1.name, &r4), (s2.name, &r5), (m4.name, &r6), (s3.name, &r7)]);
     out.set("exhaustive", json!(false));
     out.set("alphabet", json!(m2.events.iter().map(|e| format!("{:?}", e)).collect::<Vec<_>>()));
     out.set("rule", json!("X2 on T2 (real client, stream window 6, 2-3 streams, two SendRequest clones, reset memory 'never expires' / 'expires at once', and a third start state with an exchange complete on the wire but not yet read): request (with / without body), END_STREAM, peer response (END_STREAM or not), peer DATA END_STREAM, peer RST_STREAM, poll the response, read, client reset, drop of ResponseFuture / SendStream / RecvStream / a SendRequest clone in every order relative to connection polls, time passing. Epilogue from every new state: every stream is finished by both sides, every stream handle dropped, quiescence - then the snapshot hook must show no stream record beyond <= 2 remembered local resets (none once expired), both stream counters 0, empty receive / send buffers, no in-flight octets, the whole connection send window unassigned; then the last SendRequest is dropped: the connection task must have been woken, GOAWAY(NO_ERROR) on the wire, transport shut down, future Ok(()). Any panic ('dangling store key', Store/Counts drop assertions) is a violation. Server side (two more models): peer opens up to two streams (with / without body), DATA, END_STREAM, RST_STREAM; the application responds (END_STREAM or not), ends the body, resets, pushes, reads, drops RecvStream / SendResponse / SendStream in every order relative to connection polls; the same leak oracle after everything has finished"));
@@ -708,6 +743,8 @@ pub fn run(ctx: &Ctx) -> Outcome {
     vs.merge(r3.agg.vios);
     vs.merge(r4.agg.vios);
     vs.merge(r5.agg.vios);
+    vs.merge(r6.agg.vios);
+    vs.merge(r7.agg.vios);
     out.violations = vs.into_vec();
     out.guard_nonzero("client resets", out.coverage.get("mechanism_counters").and_then(|m| m.get("client_resets")).and_then(|v| v.as_u64()).unwrap_or(0));
     out
@@ -716,18 +753,18 @@ pub fn run(ctx: &Ctx) -> Outcome {
 pub fn replay(v: &serde_json::Value) -> Option<bool> {
     let h = v["harness"].as_str().unwrap_or("");
     for quick in [true, false] {
-        for (n, e) in [("server-life-remember", false), ("server-life-expire", true)] {
+        for (n, e, b) in [("server-life-remember", false, false), ("server-life-expire", true, false), ("server-life-blocked", false, true)] {
             let name: &'static str = Box::leak(format!("{}-{}", n, if quick { "q" } else { "t" }).into_boxed_str());
             if h == format!("x2.{}", name) {
-                return Some(replay_model(&ServerLife::new(name, quick, e), "C19", v));
+                return Some(replay_model(&ServerLife::new_variant(name, quick, e, b), "C19", v));
             }
         }
     }
     for quick in [true, false] {
-        for (n, e, mid) in [("life-remember", false, false), ("life-expire", true, false), ("life-mid", false, true)] {
+        for (n, e, mid, b) in [("life-remember", false, false, false), ("life-expire", true, false, false), ("life-mid", false, true, false), ("life-blocked", false, false, true)] {
             let name: &'static str = Box::leak(format!("{}-{}", n, if quick { "q" } else { "t" }).into_boxed_str());
             if h == format!("x2.{}", name) {
-                return Some(replay_model(&LifeModel::new_variant(name, quick, e, mid), "C19", v));
+                return Some(replay_model(&LifeModel::new_variant2(name, quick, e, mid, b), "C19", v));
             }
         }
     }
